@@ -5,7 +5,8 @@
 //   block <rows>   block-level rows of BlockRules.tla: every row is built as a real block on an in-process regtest node
 //                  (chainsim) whose chain holds one prepared coin for every (output script, ordinal) a row spends, and is
 //                  judged by TestBlockValidity and by ProcessNewBlock. Compared: accept / reject. A different reject reason
-//                  is only counted.
+//                  is only counted. Rows with "skip" are judged on a fresh node started with an assumed-valid block 2020 headers
+//                  above the block under test, where ConnectBlock executes no script (the resource rules must not notice).
 // Scripts arrive as token sequences (see specs/BlockRules/Sigops.tla); this file turns tokens into bytes and nothing else:
 // no sigop is counted and no rule is evaluated here.
 #include <chainsim.h>
@@ -292,10 +293,44 @@ std::string RowLabel(const UniValue& row) { return row["fam"].get_str() + " " + 
 
 UniValue Compact(const UniValue& row)
 {
-    return Obj({{"fam", row["fam"]}, {"fv", row["fv"]}, {"h", row["h"]}, {"bip34", row["bip34"]}, {"base", row["base"]}, {"weight", row["weight"]}, {"cost", row["cost"]}, {"res", row["res"]}});
+    return Obj({{"fam", row["fam"]}, {"fv", row["fv"]}, {"skip", row["skip"]}, {"h", row["h"]}, {"bip34", row["bip34"]}, {"base", row["base"]}, {"weight", row["weight"]}, {"cost", row["cost"]}, {"res", row["res"]}});
 }
 
-void RunBlockRow(Node& n, const UniValue& row)
+bool IsScriptFailure(const std::string& reason)
+{
+    return reason.rfind("mandatory-script-verify-flag-failed", 0) == 0 || reason.rfind("block-script-verify-flag-failed", 0) == 0;
+}
+
+// Compares one verdict with the row; returns false if a mismatch was reported.
+bool Judge(const UniValue& row, const std::string& who, bool ok, std::string reason, int64_t base, int64_t weight)
+{
+    const bool spec_ok = row["res"].get_str() == "ok";
+    const bool c06 = row["c06"].get_bool();
+    if (IsScriptFailure(reason)) reason = "script-failed";
+    if (ok == spec_ok) {
+        if (!ok && reason != row["res"].get_str()) {
+            R().Count("reason_differs");
+            R().Deviation(Compact(row), who + " rejects with " + reason + ", specification's first violated rule is " + row["res"].get_str(), Obj({{"who", who}, {"reason", reason}}));
+        }
+        return true;
+    }
+    if (ok && !spec_ok && c06) {
+        // accepted although a rule OUTSIDE the statement of C06 is violated (finality, CheckTransaction, witness commitment, scripts)
+        R().Count("accepted_other_rule_violation");
+        R().Deviation(Compact(row), who + " accepts a block the specification rejects with " + row["res"].get_str() + " (not a clause of C06)", Obj({{"who", who}, {"reason", "ok"}}));
+        return true;
+    }
+    if (ok) R().Mismatch(Compact(row), who + " ACCEPTS a block that violates C06: specification says " + row["res"].get_str() + " [" + RowLabel(row) + "] stripped=" + std::to_string(base) + " weight=" + std::to_string(weight));
+    else R().Mismatch(Compact(row), who + " rejects (" + reason + ") a block that satisfies every rule [" + RowLabel(row) + "] stripped=" + std::to_string(base) + " weight=" + std::to_string(weight));
+    return false;
+}
+
+// a "scripts skipped" row: the block and the headers that bury it, built while the ordinary node was alive
+struct Pending { size_t index; CBlock blk; std::vector<CBlockHeader> headers; int64_t base, weight; };
+constexpr int BURY_HEADERS = 2020;      // more than two weeks of regtest work (2016 blocks) on top of the block
+
+// returns true if the row was judged; false if it was deferred to the assumed-valid pass (row["skip"])
+bool RunBlockRow(Node& n, const UniValue& row, size_t index, std::vector<Pending>& deferred)
 {
     FillableSigningProvider keys; keys.AddKey(n.sim->coinbaseKey);
     keys.AddCScript(CScript() << OP_0 << ToByteVector(g_bc.pubkey.GetID()));
@@ -326,9 +361,8 @@ void RunBlockRow(Node& n, const UniValue& row)
 
     const std::string fam = row["fam"].get_str();
     const bool spec_ok = row["res"].get_str() == "ok";
-    const bool c06 = row["c06"].get_bool();
     // the real sigop cost of the block's transactions against the UTXO set at the tip (every input of these families exists)
-    if (fam == "sigops" || fam == "both" || fam == "natural" || fam == "weight") {
+    if (fam == "sigops" || fam == "both" || fam == "natural" || fam == "weight" || fam == "skip") {
         LOCK(cs_main);
         int64_t cost = 0;
         auto& view = n.sim->cm().ActiveChainstate().CoinsTip();
@@ -336,8 +370,20 @@ void RunBlockRow(Node& n, const UniValue& row)
         for (const auto& tx : blk.vtx) cost += GetTransactionSigOpCost(*tx, view, flags);
         if (cost != row["cost"].getInt<int64_t>()) {
             R().Mismatch(Compact(row), "sigop cost of the block is " + std::to_string(cost) + " by GetTransactionSigOpCost, specification says " + row["cost"].write());
-            return;
+            return true;
         }
+    }
+    if (row["skip"].get_bool()) {
+        Pending p; p.index = index; p.blk = blk; p.base = base; p.weight = weight;
+        CBlockHeader prev = static_cast<const CBlockHeader&>(blk);
+        for (int i = 0; i < BURY_HEADERS; ++i) {
+            CBlockHeader h; h.nVersion = 0x20000000; h.hashPrevBlock = prev.GetHash(); h.hashMerkleRoot = uint256{static_cast<uint8_t>(1 + (i & 0x7f))};
+            h.nTime = prev.nTime + 1; h.nBits = prev.nBits; h.nNonce = 0;
+            while (!CheckProofOfWork(h.GetHash(), h.nBits, n.sim->consensus())) ++h.nNonce;
+            p.headers.push_back(h); prev = h;
+        }
+        deferred.push_back(std::move(p));
+        return false;
     }
     const uint256 tip_before = n.sim->Tip()->GetBlockHash();
     const CBlock copy_a = blk;
@@ -356,27 +402,43 @@ void RunBlockRow(Node& n, const UniValue& row)
     n.dirty = n.sim->Tip()->GetBlockHash() != tip_before;
     R().Count(spec_ok ? "spec_accepts" : "spec_rejects");
 
-    auto judge = [&](const char* who, bool ok, const std::string& reason) -> bool {
-        if (ok == spec_ok) {
-            if (!ok && reason != row["res"].get_str()) {
-                R().Count("reason_differs");
-                R().Deviation(Compact(row), std::string(who) + " rejects with " + reason + ", specification's first violated rule is " + row["res"].get_str(), Obj({{"who", who}, {"reason", reason}}));
-            }
-            return true;
-        }
-        if (ok && !spec_ok && c06) {
-            // accepted although a rule OUTSIDE the statement of C06 is violated (finality, CheckTransaction, witness commitment)
-            R().Count("accepted_other_rule_violation");
-            R().Deviation(Compact(row), std::string(who) + " accepts a block the specification rejects with " + row["res"].get_str() + " (not a clause of C06)", Obj({{"who", who}, {"reason", "ok"}}));
-            return true;
-        }
-        if (ok) R().Mismatch(Compact(row), std::string(who) + " ACCEPTS a block that violates C06: specification says " + row["res"].get_str() + " [" + RowLabel(row) + "] stripped=" + std::to_string(base) + " weight=" + std::to_string(weight));
-        else R().Mismatch(Compact(row), std::string(who) + " rejects (" + reason + ") a block that satisfies every rule [" + RowLabel(row) + "] stripped=" + std::to_string(base) + " weight=" + std::to_string(weight));
-        return false;
-    };
-    bool fine = judge("TestBlockValidity", tbv_ok, tbv_reason);
-    if (fine) fine = judge("ProcessNewBlock", pnb_ok, pnb_reason);
+    bool fine = Judge(row, "TestBlockValidity", tbv_ok, tbv_reason, base, weight);
+    if (fine) fine = Judge(row, "ProcessNewBlock", pnb_ok, pnb_reason, base, weight);
     if (n.dirty && fine) throw HarnessError("could not return to the base tip after a block that was judged as the specification says");
+    return true;
+}
+
+// The assumed-valid pass: a fresh node whose -assumevalid block is the last of the headers that bury the block under test. It gets the base
+// chain, then all headers, then the block: ConnectBlock takes the fast path (no script is executed; the block carries a spend with a
+// failing script, so a connected block proves it). TestBlockValidity is not used here: it never skips scripts (its dummy index entry is
+// not an ancestor of anything).
+void RunSkippedRow(const SimOptions& o0, const UniValue& row, const Pending& p, const std::vector<std::shared_ptr<const CBlock>>& base_blocks)
+{
+    SimOptions o = o0; o.assumed_valid = p.headers.back().GetHash();
+    auto sim = MakeSim(o);
+    if (sim->cm().AssumedValidBlock() != p.headers.back().GetHash()) throw HarnessError("the node did not take the assumed-valid setting");
+    for (const auto& b : base_blocks) {
+        sim->SubmitBlock(b, true);
+        if (sim->Tip()->GetBlockHash() != b->GetHash()) throw HarnessError("a base block was not connected on the assumed-valid node: " + sim->Reason(b->GetHash()));
+    }
+    if (sim->Tip()->GetBlockHash() != p.blk.hashPrevBlock) throw HarnessError("the base chain of the assumed-valid node does not end at the block's parent");
+    std::vector<CBlockHeader> all{static_cast<const CBlockHeader&>(p.blk)};
+    all.insert(all.end(), p.headers.begin(), p.headers.end());
+    for (size_t i = 0; i < all.size(); i += 2000) {
+        std::vector<CBlockHeader> batch(all.begin() + i, all.begin() + std::min(all.size(), i + 2000));
+        BlockValidationState st;
+        if (!sim->cm().ProcessNewBlockHeaders(batch, /*min_pow_checked=*/true, st)) throw HarnessError("header rejected: " + st.ToString());
+    }
+    { LOCK(cs_main); const CBlockIndex* best = sim->cm().m_best_header; if (!best || best->GetBlockHash() != p.headers.back().GetHash()) throw HarnessError("the best header is not the assumed-valid block"); }
+    const uint256 hash = p.blk.GetHash();
+    sim->SubmitBlock(std::make_shared<const CBlock>(p.blk), true);
+    const bool ok = sim->Tip()->GetBlockHash() == hash;
+    const std::string reason = ok ? "ok" : sim->Reason(hash);
+    if (!ok && IsScriptFailure(reason)) throw HarnessError("scripts were verified although the assumed-valid conditions hold (" + reason + ")");
+    R().Count(row["res"].get_str() == "ok" ? "spec_accepts" : "spec_rejects");
+    if (ok) R().Count("blocks_connected_with_scripts_skipped");
+    R().Count("rows_on_assumed_valid_node");
+    Judge(row, "ProcessNewBlock (script checks skipped)", ok, reason, p.base, p.weight);
 }
 
 int BlockMain(const std::string& path)
@@ -392,6 +454,8 @@ int BlockMain(const std::string& path)
         if (bip34 != 1) o.args.push_back("-testactivationheight=bip34@" + std::to_string(bip34));
         Node n; n.sim = MakeSim(o);
         g_bc.pubkey = n.sim->coinbaseKey.GetPubKey();
+        std::vector<Pending> deferred;                                   // rows for the assumed-valid pass
+        std::vector<std::shared_ptr<const CBlock>> base_blocks;          // the chain below the blocks under test (heights 1..102)
         // every coin any row of this node spends
         std::set<CoinKey> need;
         for (auto& [h, idx] : by_h) for (size_t i : idx) {
@@ -414,11 +478,32 @@ int BlockMain(const std::string& path)
                     R().Count("nodes_rebuilt");
                 }
                 R().cur_test = i; R().cur_step = 0; R().cur_action = Compact(rows[i]);
-                try { RunBlockRow(n, rows[i]); }
+                bool judged = true;
+                try {
+                    judged = RunBlockRow(n, rows[i], i, deferred);
+                    if (!judged && base_blocks.empty()) {
+                        LOCK(cs_main);
+                        const CChain& chain = n.sim->cm().ActiveChain();
+                        for (int bh = 1; bh <= chain.Height(); ++bh) {
+                            auto b = std::make_shared<CBlock>();
+                            if (!n.sim->cm().m_blockman.ReadBlock(*b, *chain[bh])) throw HarnessError("cannot read a base block");
+                            base_blocks.push_back(b);
+                        }
+                    }
+                }
                 catch (const HarnessError& e) { R().Count("harness_errors"); R().Info(Obj({{"kind", "harness_error"}, {"test", (uint64_t)i}, {"row", Compact(rows[i])}, {"why", e.what()}})); }
                 catch (const std::exception& e) { R().Mismatch(Compact(rows[i]), std::string("exception: ") + e.what()); }
-                ++R().tests; ++R().steps;
+                if (judged) { ++R().tests; ++R().steps; }
             }
+        }
+        // the assumed-valid pass: one fresh node per row (the assumed-valid block is a ChainstateManager option and sits on top of the row's block)
+        n = Node{};
+        for (const Pending& p : deferred) {
+            R().cur_test = p.index; R().cur_step = 0; R().cur_action = Compact(rows[p.index]);
+            try { RunSkippedRow(o, rows[p.index], p, base_blocks); }
+            catch (const HarnessError& e) { R().Count("harness_errors"); R().Info(Obj({{"kind", "harness_error"}, {"test", (uint64_t)p.index}, {"row", Compact(rows[p.index])}, {"why", e.what()}})); }
+            catch (const std::exception& e) { R().Mismatch(Compact(rows[p.index]), std::string("exception: ") + e.what()); }
+            ++R().tests; ++R().steps;
         }
     }
     R().Summary();
